@@ -15,6 +15,11 @@
       high = load(rb->high); low = load(rb->low); index = low & mask; ret = rb->buffer[index];
       if (ret && high > low && CAS(&rb->low, low, low+1)) { rb->buffer[index] = 0; return ret; }
       return NULL;
+
+  `step` = `core` followed by `observe`: `core` is the C code (guards read only the shared cells and the
+  thread's pc); the ghost fields `pushed`, `popped`, `written`, `cleared`, `arg`, `active`,
+  `wit` are write-only bookkeeping for the theorems (no guard reads them), so they cannot
+  make the model reject a trace of the implementation.
 -/
 import LibfiberVerif.Core.Sys
 import LibfiberVerif.Core.Event
